@@ -165,7 +165,7 @@ func (s *Fn) callFacts(c *ssa.Call, ret func(i int) Lin, res int) (out []Lin) {
 	case "bytes.Index", "strings.Index":
 		add(le(konst(-1), r))
 		add(le(r.add(s.lenOf(a[1]), 1), s.lenOf(a[0])))
-	case "bytes.IndexByte", "strings.IndexRune", "strings.IndexAny", "strings.IndexByte", "bytes.IndexRune", "bytes.IndexAny":
+	case "bytes.IndexByte", "strings.IndexRune", "strings.IndexAny", "strings.IndexByte", "bytes.IndexRune", "bytes.IndexAny", "slices.Index", "slices.IndexFunc":
 		add(le(konst(-1), r))
 		add(lt(r, s.lenOf(a[0])))
 	case "bytes.LastIndex", "strings.LastIndex":
